@@ -35,7 +35,7 @@ def plan(seed, tier):
                 "world": c02.GEN_WORLD,
                 "fn": "gen_programs",
                 "payload": {"seed": "%s/c16gen/%d" % (seed, g), "count": nprog // ngen, "tier": tier, "corpus": g < 2},
-                "timeout": 300,
+                "timeout": 900,
             }
         )
     return jobs
@@ -63,7 +63,7 @@ def post_plan(seed, tier, jobs, results):
                     "world": worlds[(ci // chunk + rep * 3) % nworlds],
                     "fn": "run_session",
                     "payload": {"programs": group, "seed": "%s/c16/%d/%d" % (seed, ci, rep), "group": ci, "rep": rep, "axioms": rep == 0 and (ci // chunk) % 4 == 0},
-                    "timeout": 600,
+                    "timeout": 1200,
                 }
             )
         if (ci // chunk) % 2 == 0:
@@ -72,7 +72,7 @@ def post_plan(seed, tier, jobs, results):
                     "world": worlds[(ci // chunk + 2) % nworlds],
                     "fn": "userland_dispatch",
                     "payload": {"seed": "%s/c16u/%d" % (seed, ci), "reps": 6},
-                    "timeout": 300,
+                    "timeout": 900,
                 }
             )
         out.append(
@@ -80,7 +80,7 @@ def post_plan(seed, tier, jobs, results):
                 "world": worlds[(ci // chunk + 5) % nworlds],
                 "fn": "instance_checks",
                 "payload": {"programs": group, "seed": "%s/c16i/%d" % (seed, ci)},
-                "timeout": 600,
+                "timeout": 1200,
             }
         )
     return out
